@@ -58,6 +58,9 @@ BadBlk(g, ev, g2, b) ==
   CASE b.where = "cond" -> ~(b.kind = "recv" /\ ~g2.created /\ g2.fails = a.fails0 /\ ~g2.cancelled)
     [] b.where = "mutex" -> g2.pendInv = 0
     [] b.where = "gate" -> ~(b.kind = "send" /\ g2.pendInv > 0)
+    \* the underlying SendMsg may block (flow control) once the stream exists; a receiver parked inside the wrapper
+    \* at the same time is reported by the cond / mutex cases
+    [] b.where = "dgate" -> ~(b.kind = "send" /\ g2.created)
     [] OTHER -> TRUE
 
 SClauses(g, ev, g2) ==
